@@ -12,6 +12,8 @@ RULE = ("mem: random operation scenarios run over an in-memory transport whose b
         "to the first call that raised, and every call that returned normally must pass its result oracle with all its messages complete. tcp: pushes of up to several MiB with "
         "maxdata up to 1 MiB over a REAL loopback connection (TcpTransport with a transport timeout = non-blocking socket, shrunken SO_SNDBUF/SO_RCVBUF, slow reader; also "
         "TcpTransportAsync); the simulator's filesystem must hold the exact bytes and its framing parser must not fail. "
+        "stuckall: the link gets stuck (takes j bytes, then nothing / then raises its timeout) at EVERY write call of a small session in turn; a call that returns normally must leave no partial message at the peer. "
+        "threads: 2-3 concurrent operations over a short-writing transport under the controlled scheduler. stalled: the TCP reader stops in the middle of a message for shorter / longer than the retry (both transports). "
         "non-trivial = at least one write was accepted short; distinct = distinct (kind, impl, capacity policy, operation list) / (impl, size, maxdata, buffers) signatures")
 ASSUMPTIONS = ["a transport that reports a short count has queued exactly that many bytes (what sockets and libusb do)",
                "real-socket runs use generous wall-clock transport timeouts; a timeout there is reported as inconclusive, never as a violation"]
@@ -147,7 +149,7 @@ def run_threads(case, stats):
         steps.append(mine)
     cap = rng.choice([1, 7, 24, 100, 1000])
     strat = sched.RandomWalk(case["seed"], stay=rng.choice([0.2, 0.5, 0.8]), line_prob=0.0) if rng.random() < 0.7 else sched.PCT(case["seed"], len(steps), depth=rng.choice([1, 2, 3]), horizon=300, line_prob=0.0)
-    res = c06.run_schedule(case["impl"], steps, strat, line=False, core_kw={"writecap": cap})
+    res = c06.run_schedule(case["impl"], steps, strat, line=False, core_kw={"writecap": cap, "budget": 20000})
     viol = []
     for v in res["viol"]:
         if v["mechanism"].startswith("monitor:C02") or v["mechanism"] in ("transport-call-without-lock", "transport-not-exclusive") or "two actors inside the transport" in v["detail"]:
